@@ -162,7 +162,9 @@ def extract_units(unit_names, repo=None, jobs=16):
     """Return {unit: path to facts JSON}.  Cached by content hash of unit + headers + flags + tool."""
     repo = repo or REPO
     ensure_envx()
-    units = compile_db(repo)
+    # overlays (seeded variants of the sources under .work/) reuse the real tree's compile database
+    base = REPO if os.path.abspath(repo).startswith(os.path.abspath(WORK) + os.sep) else repo
+    units = compile_db(base)
     missing = [u for u in unit_names if u not in units]
     if missing:
         raise AnalysisBroken('units not in the build: %s' % ', '.join(missing))
@@ -183,7 +185,7 @@ def extract_units(unit_names, repo=None, jobs=16):
     def run(job):
         u, src, out = job
         tmp = out + '.%d.tmp' % os.getpid()
-        args = [a.replace('/repo/', repo.rstrip('/') + '/') if repo != '/repo' else a for a in units[u]]
+        args = [a.replace(base.rstrip('/') + '/', repo.rstrip('/') + '/') if repo != base else a for a in units[u]]
         cmd = [ENVX, '--root', repo.rstrip('/') + '/', '--out', tmp, src, '--'] + args + \
               ['-resource-dir', _resource_dir()]
         r = subprocess.run(cmd, capture_output=True, text=True, cwd=repo)
